@@ -40,7 +40,9 @@ Flows ==
    nodeDialFirst  |-> <<S("Load", "fail", FALSE, "none"), S("Store", "fail", FALSE, "creds=")>>]
 
 FlowNames == DOMAIN Flows
-Kinds == {"generic", "notfound", "cancelled"}
+\* "ctxdone": the caller's context is REALLY cancelled when the operation starts (the back ends look at the context, so the
+\* operation fails with the cancellation, and ctx.Err() stays set for whatever the call does next)
+Kinds == {"generic", "notfound", "cancelled", "ctxdone"}
 
 \* does the call get past step i when that step fails with kind k
 Survives(st, k) == st.ignored \/ (k = "notfound" /\ st.kind \in {"Load", "LoadByNodeId"} /\ st.nf \in {"absent", "stop"})
@@ -49,7 +51,7 @@ Survives(st, k) == st.ignored \/ (k = "notfound" /\ st.kind \in {"Load", "LoadBy
 Retried == {"nodeHandleTokenRetry"}
 
 \* outcome of running flow f with a fault of kind k at position pos (0 = no fault)
-Run1(f, pos, k) ==
+Run0(f, pos, k) ==
   LET steps == Flows[f]
       n == Len(steps)
       failsAt == IF pos \in 1..n /\ ~Survives(steps[pos], k) THEN pos ELSE 0
@@ -59,6 +61,8 @@ Run1(f, pos, k) ==
   IN [res |-> IF failsAt # 0 THEN "error" ELSE "ok",
       handed |-> failsAt = 0 /\ stopsAt = 0,
       effects |-> effects]
+
+Run1(f, pos, k) == Run0(f, pos, IF k = "ctxdone" THEN "cancelled" ELSE k)
 
 Run(f, pos, k) == LET r == Run1(f, pos, k) IN IF f \in Retried /\ r.res = "error" THEN Run1(f, 0, k) ELSE r
 
